@@ -84,7 +84,15 @@ def run(chk: common.Check):
             # do not spend the budget on more of the same
             chk.extra["stopped_after_call_timeouts"] = timeouts
             break
-        lean_case, obs, failures = cw.run_spec(spec)
+        try:
+            lean_case, obs, failures = cw.run_spec(spec)
+        except RuntimeError:
+            chk.extra["spec_at_tool_failure"] = spec
+            import json as _json, os as _os
+
+            _os.makedirs(str(common.REPLAYS), exist_ok=True)
+            open(_os.path.join(str(common.REPLAYS), "C15_tool_failure_spec.json"), "w").write(_json.dumps(spec, indent=1))
+            raise
         timeouts += sum(1 for o in obs if o["err"] == "ScheduleTimeout")
         cases.append(lean_case)
         all_obs.append(obs)
